@@ -220,6 +220,9 @@ fn op_of(c: char) -> Option<Op> {
         'n' => Op::EndPath, 'h' => Op::Close,
         'm' => Op::MoveTo { p: Point { x: 10., y: 20. } }, 'l' => Op::LineTo { p: Point { x: 30.5, y: 40. } },
         'M' => Op::MoveTo { p: Point { x: 0., y: -7.25 } }, 'w' => Op::LineWidth { width: 2.5 },
+        // text positioning: serialize_ops folds Leading{l} + MoveTextPosition{(x, -l)} into `x -l TD` (and only that pair)
+        'L' => Op::Leading { leading: 12. }, 'T' => Op::MoveTextPosition { translation: Point { x: 5., y: -12. } },
+        'U' => Op::MoveTextPosition { translation: Point { x: 5., y: 12. } }, 'N' => Op::TextNewline,
         _ => return None })
 }
 fn op_letter(o: &Op) -> char {
@@ -229,6 +232,10 @@ fn op_letter(o: &Op) -> char {
         Op::EndPath => 'n', Op::Close => 'h',
         Op::MoveTo { p } if p.x == 10. && p.y == 20. => 'm', Op::LineTo { p } if p.x == 30.5 && p.y == 40. => 'l',
         Op::MoveTo { p } if p.x == 0. && p.y == -7.25 => 'M', Op::LineWidth { width } if *width == 2.5 => 'w',
+        Op::Leading { leading } if *leading == 12. => 'L',
+        Op::MoveTextPosition { translation } if translation.x == 5. && translation.y == -12. => 'T',
+        Op::MoveTextPosition { translation } if translation.x == 5. && translation.y == 12. => 'U',
+        Op::TextNewline => 'N',
         _ => '?' }
 }
 fn rect_text(r: &Option<Rectangle>) -> String {
